@@ -119,6 +119,10 @@ def module_values():
     l1 = f.load(c)
     l2 = f.load(c)
     i = f.load(IntVal(3, 5))
+    from hugr.std.int import _DivModDef
+    i6 = f.load(IntVal(1, 6))
+    dm5 = f.add_op(_DivModDef(5), i, i)                    # the same registered op class twice, instantiated differently
+    dm6 = f.add_op(_DivModDef(6), i6, i6)
     e = f.load(val.Sum(1, tys.Sum([[], []]), []))          # general sum whose rows are all empty
     o = f.load(val.None_())                                # Option() : [[], []] as well
     f.set_outputs(l1, l2, i, e, o)
@@ -164,5 +168,6 @@ def extension_small(name="ext.ünï", with_binary=False):
                            "desc ✓", {"k": 1}))
     if with_binary:
         e.add_op_def(ext.OpDef("Bin", ext.OpDefSig(None, True), "binary"))
+        e.add_op_def(ext.OpDef("BinWithSig", ext.OpDefSig(tys.FunctionType([B], [B]), True), "binary, with a static signature as well"))
     e.add_extension_value(ext.ExtensionValue("v", val.TRUE))
     return e
